@@ -174,6 +174,7 @@ type scenCfg struct {
 	Alt     []integ    // integrations of r1 after a reload that changes the receiver (nil: reloads keep it)
 	R2      []integ    // integrations of receiver r2 (never changed)
 	Inhibit bool
+	AGC     int64 // the provider's alert GC interval in ms (0: never within a scenario)
 }
 
 // event is the data of the "cfg" event: the configuration as the observer specification takes it.
@@ -188,7 +189,7 @@ func (c scenCfg) event(windows []inst.Window, wait, maxwait int64) map[string]an
 	return map[string]any{
 		"root": routeCfg{Sel: "ALL", Recv: "r1", T: c.T}.rec(true), "routes": routes,
 		"integs": c.allIntegs(c.Integs), "inhibit": c.Inhibit, "rt": int64(resolveTimeout / time.Millisecond),
-		"windows": windows, "wait": wait, "maxwait": maxwait,
+		"windows": windows, "wait": wait, "maxwait": maxwait, "agc": c.AGC,
 	}
 }
 
@@ -316,7 +317,7 @@ type envEvent struct {
 }
 
 func genScenario(rng *rand.Rand) (scenCfg, []envEvent, []inst.Window, time.Duration) {
-	cfg := scenCfg{T: timerSets[rng.Intn(len(timerSets))], Inhibit: rng.Intn(3) == 0}
+	cfg := scenCfg{T: timerSets[rng.Intn(len(timerSets))], Inhibit: rng.Intn(3) == 0, AGC: int64(30 * time.Minute / time.Millisecond)}
 	switch rng.Intn(6) {
 	case 0:
 		cfg.Integs = mkIntegs([]string{"webhook"}, []bool{rng.Intn(2) == 0})
@@ -500,6 +501,17 @@ func genScenario(rng *rand.Rand) (scenCfg, []envEvent, []inst.Window, time.Durat
 			}
 		}
 		evs = keep
+	}
+	if !flap && rng.Intn(3) == 0 {
+		// an alert the receiver has been told about resolves, and the configuration is reloaded
+		// before the next flush of its group: the new dispatcher must still report the resolution
+		a := alertNames[rng.Intn(len(alertNames))]
+		mt := cfg.maxT()
+		t0 := time.Duration(1+rng.Intn(60))*time.Second + 477*time.Millisecond
+		tr := t0 + mt.gw + time.Duration(1+rng.Intn(3))*mt.gi + 3*time.Second + 20*time.Millisecond
+		evs = append(evs, envEvent{at: t0, kind: "post", a: a, mode: "fire"},
+			envEvent{at: tr, kind: "post", a: a, mode: "resolve"},
+			envEvent{at: tr + time.Duration(200+rng.Intn(1500))*time.Millisecond, kind: "reload"})
 	}
 	sort.SliceStable(evs, func(i, j int) bool { return evs[i].at < evs[j].at })
 	return cfg, evs, ws, horizon
